@@ -58,7 +58,7 @@ def pp(e):
     if k == 'seq':
         return ' '.join(pp(x) if x[0] != 'alt' else '(' + pp(x) + ')' for x in e[1])
     if k == 'alt':
-        return ' | '.join(pp(x) for x in e[1])
+        return ' | '.join(pp(x) if x[0] != 'alt' else '(' + pp(x) + ')' for x in e[1])
     if k == 'grp':
         return '(' + pp(e[1]) + ')'
     if k == 'skipgrp':
